@@ -963,7 +963,76 @@ class Evaluator:
                 break
         return tuple(out), tuple(rest)
 
+    def _cond_of_call(self, fn, args):
+        """Condition of a conditional callee / conditional splat in a call, looking through one level of higher-order application
+        (modular_vmap(<ifexp>, ...)(*<ifexp>))."""
+        cands = [fn] + [a[1] for a in args if a[0] == "star"]
+        if fn[0] == "call" and fn[1][0] == "name" and fn[1][1] in VMAP_NAMES:
+            cands += list(fn[2][:1]) + [a[1] for a in fn[2] if a[0] == "star"]
+        for x in cands:
+            if isinstance(x, tuple) and x and x[0] == "ifexp" and x[2] != NORET and x[3] != NORET:
+                return x[1]
+        return None
+
     def call_term(self, fn, args, kwargs, fr, node):
+        # (A if c else B)(*(TA if c else TB))  ==  A(*TA) if c else B(*TB): a call through a conditional callee or a conditional
+        # argument splat is distributed over the condition (same condition resolved consistently in callee, operands and options)
+        c = self._cond_of_call(fn, tuple(args))
+        if c is not None and getattr(self, "_distributing", 0) < 3:
+            def refold(x):
+                # structural constants that become known once the condition is resolved
+                if x[0] == "call" and x[1] == ("name", "builtins.len") and len(x[2]) == 1 and x[2][0][0] in ("tuple", "list") \
+                        and not any(y[0] == "star" for y in x[2][0][1]):
+                    return C(len(x[2][0][1]))
+                if x[0] == "binop" and x[1] == "*" and x[2][0] == "tuple" and x[3][0] == "const" and isinstance(x[3][1], int) and 0 <= x[3][1] <= 8:
+                    return ("tuple", x[2][1] * x[3][1])
+                if x[0] == "binop" and x[1] == "+" and x[2][0] in ("tuple", "list") and x[3][0] == x[2][0]:
+                    return (x[2][0], x[2][1] + x[3][1])
+                return None
+
+            def pick(t, side):
+                # the condition is resolved wherever it occurs (deeply), then structural constants are re-folded
+                def f(x):
+                    if x[0] == "ifexp" and x[1] == c:
+                        return x[2] if side else x[3]
+                    return None
+                t2 = subst(t, f)
+                for _ in range(3):
+                    t3 = subst(t2, refold)
+                    if t3 == t2:
+                        break
+                    t2 = t3
+                return t2
+
+            def pick_fn(f, side):
+                f = pick(f, side)
+                if f[0] == "call":
+                    return ("call", pick(f[1], side), tuple(pick(a, side) for a in f[2]), tuple((k, pick(v, side)) for k, v in f[3]))
+                return f
+
+            def expand(seq):
+                out = []
+                for a in seq:
+                    if a[0] == "star":
+                        it = self.known_items(a[1])
+                        if it is not None:
+                            out.extend(it)
+                            continue
+                    out.append(a)
+                return tuple(out)
+            self._distributing = getattr(self, "_distributing", 0) + 1
+            try:
+                outs = []
+                for side in (True, False):
+                    f2 = pick_fn(fn, side)
+                    if f2[0] == "call":
+                        f2 = self.call_term(f2[1], expand(f2[2]), f2[3], fr, node)
+                    a2 = expand(tuple(pick(a, side) for a in args))
+                    k2 = tuple((k, pick(v, side)) for k, v in kwargs)
+                    outs.append(self.call_term(f2, a2, k2, fr, node))
+            finally:
+                self._distributing -= 1
+            return ("ifexp", c, outs[0], outs[1])
         args, kwargs = self.canon_ctor(fn, tuple(args), tuple(kwargs))
         t = ("call", fn, tuple(args), tuple(kwargs))
         if fr is not None:
